@@ -372,3 +372,54 @@ def object_override_program(rng):
                   "try { print(%s.other()); } catch e { print(type(e)); print(e.context); }" % v,
                   "try { print(%s.label()); } catch e { print(type(e)); print(e.context); }" % v]
     return "\n".join(L) + "\n"
+
+
+def nested_receiver_program(rng):
+    """`self`, `super.m(..)`, the value `super.m` and `Self` used inside lambdas and functions nested one to three
+    levels deep in methods, constructors and static methods; every method reached through `super` reports its own
+    receiver, so a nested use that sees anything but the method's receiver prints differently"""
+    r = rng
+    depth = r.range(1, 3)
+    kinds = [r.choice(["lambda", "fn"]) for _ in range(depth)]
+
+    def nest(expr, extra=""):
+        # returns statements that build the nested closure chain and return the innermost result
+        body = "return %s;" % expr
+        for i, k in enumerate(reversed(kinds)):
+            lvl = depth - i
+            if k == "lambda":
+                body = "var c%d = || { %s }; %s return c%d();" % (lvl, body, extra if i == depth - 1 else "", lvl)
+            else:
+                body = "fn c%d() { %s } %s return c%d();" % (lvl, body, extra if i == depth - 1 else "", lvl)
+        return body
+
+    tag = r.range(1, 99)
+    L = ["#[constructor(new)]", "class NBase {",
+         "    fn who(self) { return [\"base who\", self.tag, type(self)]; }",
+         "    fn me(self) { return self; }",
+         "    fn add(self, a, b) { return [self.tag, [a, b]]; }",
+         "    #[static] fn make() { return \"base make\"; }", "}",
+         "#[derive(NBase)]", "class NMid {",
+         "    #[constructor] fn new(self) { self.tag = %d; }" % tag,
+         "    fn who(self) { return [\"mid who\", super.who()]; }", "}",
+         "#[derive(NMid)]", "class NLeaf {",
+         "    #[constructor] fn new(self, t) { super.new(); self.tag = t; self.early = (|| self.tag)(); }",
+         "    fn who(self) { return [\"leaf who\"]; }",
+         "    fn a(self) { %s }" % nest("super.who()"),
+         "    fn b(self) { %s }" % nest("super.me() == self"),
+         "    fn c(self, x) { %s }" % nest("super.add(x, self.tag)"),
+         "    fn d(self) { %s }" % nest("super.me", ),
+         "    fn e(self) { %s }" % nest("[self.tag, self.who(), self == super.me()]"),
+         "    fn f(self) { var keep = []; %s }" % nest("keep", extra="keep.push(|| super.who()); keep.push(|| self);"),
+         "    #[static] fn make() { return \"leaf make\"; }",
+         "    #[static] fn s() { %s }" % nest("[Self, Self.make()]"),
+         "}",
+         "var o = NLeaf.new(\"t%d\"); var p = NLeaf.new(%d);" % (tag, tag + 1)]
+    calls = ["print(o.a());", "print(o.b());", "print(o.c(%d));" % r.range(0, 9), "var bm = o.d(); print(bm() == o); print(bm() == p);",
+             "print(o.e());", "var k = p.f(); print(k[0]()); print(k[1]() == p); print(k[1]() == o);", "print(NLeaf.s());",
+             "print(o.early); print(p.a());", "var ma = o.a; print(ma());"]
+    r.shuffle(calls) if hasattr(r, "shuffle") else None
+    L += calls
+    if r.chance(8):
+        L += ["class NStat { #[static] fn s() { var f = || self; return f(); } }", "print(NStat.s());"]
+    return "\n".join(L) + "\n"
